@@ -107,8 +107,8 @@ def parts(tier):
                 for chk in ('one', 'two', 'bytes'):
                     for clse in ('after-ack', 'eager'):
                         for twin in ('sync', 'async'):
-                            if len(ops) == 3 and (fam, chk) not in (('extreme', 'two'), ('small', 'bytes'), ('same', 'one')):
-                                continue
+                            if len(ops) == 3 and md != 4096:
+                                continue          # length 3: all 9 (family, chunking) combinations at maxdata 4096
                             for ps in ((40, 9000) if 'push' in ops else (40,)):
                                 sc.append({'ops': list(ops), 'family': fam, 'maxdata': md, 'chunking': chk, 'clse': clse, 'twin': twin, 'push_size': ps})
     sc2 = [{'size': z, 'when': w, 'delay': d, 'twin': t, 'clse': c, 'family': f} for z in (5000, 9000, 17000) for w in ('header', ['data', 1], ['data', 2])
@@ -127,4 +127,4 @@ def parts(tier):
     inter = Part('interleaved-streams', sc5, run_interleaved, {'dev-order': None}, what='a suspended stream whose packets are parked and later delivered from the store: each delivered WRTE must still be acknowledged once',
                  bound='%d cases x all wire orders' % len(sc5))
     return [early, okord, inflight, inter, Part('op-sequences', sc, run_seq, {'dev-order': None}, what='operation sequences of length <=%d x device parameters' % k,
-                      bound='length <=%d%s' % (k, '; length-3 sequences on 3 of the 9 (family, chunking) combinations' if k == 3 else ''))]
+                      bound='length <=%d%s' % (k, '; length-3 sequences at maxdata 4096 only' if k == 3 else ''))]
